@@ -77,6 +77,9 @@ int main(void)
         NewMatrix(&t, m->col, 2);
         for(j = 0; j < m->col; j++) MatrixColumnMinMax(m, j, &t->data[j][0], &t->data[j][1]);
         pr_matrix("minmax", t); DelMatrix(&t);
+        /* the descriptive-statistics table (one row per column: mean, median, harmonic mean, variances, standard deviations,
+           coefficients of variation, min, max, number of zeros, number of missing cells) */
+        initMatrix(&t); MatrixColDescStat(m, t); pr_matrix("descstat", t); DelMatrix(&t);
       }
       pr_long("reuse_bad", reuse_mask);
       DelMatrix(&m);
